@@ -519,7 +519,7 @@ E_CLASS = {     # same vocabulary as oracle 1 (pclass / role), so that one root 
     'f"{}"': ('JoinedStr', ['field']), 'f"{!r}"': ('JoinedStr.conv', ['field']), 'f"{:>3}"': ('JoinedStr.spec', ['field']),
     'f"{:{}}"': ('JoinedStr.spec', ['field', 'field']), 'f"a{}b{}"': ('JoinedStr', ['field', 'field']), 'f"{{}}"': ('JoinedStr.brace', ['field']),
     "f\"'{}\"": ('JoinedStr.quote', ['field']), 's[]': ('Subscript', ['index']), 's[:]': ('Slice', ['item', 'item']), 's * n': ('BinOp', ['right']),
-    's % n': ('Tuple', ['item', 'item']), 's.upper': ('Call', ['args']), '.5': ('BinOp', ['left']), 'negconst**': ('BinOp.negative-constant-base', ['right']), 'negconst.real': ('Primary.negative-constant-base', ['right']), 'float*': ('BinOp', ['left']), 'abs-like': ('Call', ['args']),
+    's % n': ('Tuple', ['item', 'item']), 's.upper': ('Call', ['args']), '.5': ('BinOp', ['left']), 'negconst**': ('BinOp', ['right']), 'negconst.real': ('BinOp', ['right']), 'float*': ('BinOp', ['left']), 'abs-like': ('Call', ['args']),
 }
 assert set(E_CLASS) == set(E_OPS), set(E_CLASS) ^ set(E_OPS)
 E_PRECISE = {'neg', 'inv', 'not', 'pos', '+', '-', '*', '//', '%', '/', '**', '<<', '>>', '&', '|', '^', '<', '==', 'in', 'is not', 'chain', 'or', 'and'}
@@ -534,7 +534,7 @@ def e_sig(m):
         inner = e_sig(c)
         if '<-' in inner: child = '(%s)' % inner
         parts.add('%s[%s]<-%s' % (m[0] if both else cls, roles[slot], child))
-    if not parts: return cls
+    if not parts: return cls if cls.startswith('JoinedStr') else e_shape(m)
     return ' & '.join(sorted(parts))
 
 def e_render(s):
@@ -557,11 +557,11 @@ def space_e2e(ctx):
     for op in ops:                                   # depth 2: one compound child per slot
         n = E_ARITY[op]
         for i in range(n):
-            for c in d1:
+            for c in (d1 if not ctx.quick else [canon(o) for o in E_CORE]):
                 ch = list(E_LEAVES[:n]); ch[i] = c
                 out.append((op,) + tuple(ch))
-    bound = ('depth 1: %d typed operators x all labelings over %s; depth 2: every operator x every slot x every operator as compound child'
-             % (len(ops), E_LEAVES))
+    bound = ('depth 1: %d typed operators x all labelings over %s; depth 2: every operator x every slot x every %soperator as compound child'
+             % (len(ops), E_LEAVES, '' if not ctx.quick else 'core (%d) ' % len(E_CORE)))
     if not ctx.quick:
         c1 = ['x'] + [canon(op) for op in E_CORE]
         for op in ops:
@@ -589,7 +589,7 @@ def space_e2e(ctx):
     return list(dict.fromkeys(out)), bound
 
 FRONTS = ('gen', 'str', 'lam', 'filter', 'where')
-ASSIGN = [(2, 3, 5), (0, 3, 5), (2, 0, 5), (2, 3, 0), (0, 0, 5), (1, 1, 1), (3, 2, 1), (0, 0, 0)]      # (x, y, z)
+ASSIGN = [(2, 3, 5), (0, 3, 5), (2, 0, 5), (2, 3, 0), (3, 2, 1), (0, 0, 0)]      # (x, y, z)
 ATTR_OF = {int: 'n', str: 's', float: 'fl', bool: 'b'}
 
 class Obj(object):
